@@ -455,7 +455,7 @@ fn run_load_use(plan: &Plan, image: &[u8], verbose: bool) -> Report {
     facts.alloc_largest = loaded.astats.largest;
     if let Some(rs) = &loaded.rstats {
         dg.u64(rs.trace);
-        if rs.calls > 4 * image.len() as u64 + 1024 {
+        if rs.calls.saturating_sub(rs.eintr) > 4 * image.len() as u64 + 1024 {
             facts.reader = loaded.rstats.clone();
             return Report {
                 violation: Some(Violation {
@@ -786,7 +786,7 @@ fn run_reader(plan: &Plan, image: &[u8], verbose: bool) -> Report {
     let rs = l.rstats.clone().unwrap_or_default();
     dg.u64(rs.trace);
     facts.reader = l.rstats.clone();
-    if rs.calls > 4 * image.len() as u64 + 1024 {
+    if rs.calls.saturating_sub(rs.eintr) > 4 * image.len() as u64 + 1024 {
         return Report {
             violation: Some(Violation {
                 property: prop.into(),
